@@ -282,7 +282,7 @@ def snapshot_masks(ctx: Ctx, py: PyProgram, rs: RustProgram) -> None:
             alts = pat["cases"] if pat.get("k") == "p_or" else [pat]
             for a in alts:
                 if a.get("k") == "p_lit":
-                    widths[a["e"]["v"]] = rs.evaluator(isa.LIB_RS).eval(nd["body"])
+                    widths.setdefault(a["e"]["v"], rs.evaluator(isa.LIB_RS).eval(nd["body"]))       # a match takes its first matching arm
     n = 0
     for name, wbytes in layout:
         n += 1
